@@ -84,7 +84,7 @@ class SpecInterp(Interp):
 
 
 def _relational(arg):
-    modname, n = arg
+    modname, n, tier = arg if len(arg) == 3 else (arg[0], arg[1], 'quick')
     isets.warm()
     absstr.table_lemmas()
     specname, vopts = MODULES[modname]
@@ -144,7 +144,8 @@ def _relational(arg):
         return (r1, r2, c)
     t0 = time.time()
     try:
-        paths, status = explore_closure(run, budget=8000, time_limit=240, cur_n=n, interp_cls=SpecInterp)
+        paths, status = explore_closure(run, budget=8000 if tier == 'quick' else 40000, time_limit=60 if tier == 'quick' else 1200, cur_n=n,
+                                        interp_cls=SpecInterp, lazy_rel=True)
     except (Unsupported, Restart) as u:
         return dict(n=n, status='undecided', why='outside the subset: %s' % (u if isinstance(u, Unsupported) else 'conflicting normalisations'))
     except z3.Z3Exception as e:
@@ -256,8 +257,10 @@ def spec_bitcoin(s):
             if k < 0:
                 return None
             n = n * 58 + k
-        raw = n.to_bytes(25, 'big') if n < 2 ** 200 else None
-        if raw is None:
+        zeros = len(s) - len(s.lstrip('1'))
+        body = n.to_bytes((n.bit_length() + 7) // 8, 'big') if n else b''
+        raw = b'\0' * zeros + body
+        if len(raw) != 25:
             return None
         if raw[-4:] != hashlib.sha256(hashlib.sha256(raw[:-4]).digest()).digest()[:4]:
             return None
@@ -370,10 +373,12 @@ def check(prop, tier, args):
     rep = Report('C07', tier, 'proof', './check C07 --tier %s' % tier, seed=int(os.environ.get('VERIF_SEED', '0') or 0))
     mods = [m for m in MODULES if not args.modules or m in args.modules]
     nmax = 40
-    items = [(m, n) for m in mods for n in list(range(0, nmax + 1)) + ['long']]
-    results = pool.pool_map(_relational, items, None, 600)
+    isets.warm()
+    absstr.table_lemmas()
+    items = [(m, n, tier) for m in mods for n in list(range(0, nmax + 1)) + ['long']]
+    results = pool.pool_map(_relational, items, None, 200 if tier == 'quick' else 3000)
     for item, r, secs in sorted(results, key=lambda x: (x[0][0], str(x[0][1]).zfill(4))):
-        m, n = item
+        m, n = item[0], item[1]
         rep.functions.update([m + ':validate', m + ':compact', 'contracts.specs:' + MODULES[m][0]])
         oid = 'C07/%s/agrees-with-spec/len=%s' % (m, n)
         if 'crash' in r:
@@ -387,7 +392,7 @@ def check(prop, tier, args):
         else:
             for b in r['bads']:
                 d = native_disagreement(m, b['input'])
-                key = 'len=%s: %s' % (n, b['what'])
+                key = b['what']
                 rep.refuted(oid + '/' + b['what'][:40], m, key, d or b['what'], dict(function=m + ':validate', input=b['input'], real=d, opts=MODULES[m][1]),
                             d is not None, lambda k: native_disagreement(k['module'], k['witness']['input']) is not None,
                             approx=bool(b.get('approx')) or d is None)
